@@ -41,7 +41,10 @@ def slots_of(mspec, mobs):
             draws.append(cur)
         elif x[0] == "fill":
             cur.append(int.from_bytes(x[2], "little") % L)
-    last = [d for d in draws if d][-1]
+    nonempty = [d for d in draws if d]
+    last = nonempty[-1] if nonempty else []
+    if len(last) < 2:
+        return None         # the last transcript RNG instance does not yield r and s: not the sequence of operations of the model
     sl[("r", None, 0)] = last[0]
     sl[("s", None, 0)] = last[1]
     return sl
@@ -91,6 +94,10 @@ def oracle(run, s, o):
             run.violation(f"prove() with the operating system's generator failed or its proof does not verify: {[mo.get('prove') for mo in o['members']]}", rp)
             return
         A, B, C = (slots_of(ms, mo) for ms, mo in zip(s["members"], o["members"]))
+        if A is None or B is None or C is None:
+            run.violation(f"prove(): the prover's last transcript RNG instance does not yield the two draws (r, s) — the RNG instances are not built and used as in the "
+                          f"model (one per challenge, each keyed by the external generator; bits={b}, m={m}, T={T}, seeded={seeded})", rp)
+            return
         rng_slots = [k_ for k_ in A if not seeded or k_[0] in ("r", "s")]
         same = [k_ for k_ in rng_slots if A[k_] == B[k_] or A[k_] == C[k_] or B[k_] == C[k_]]
         if same or len({mo["proof"]["bytes"] for mo in o["members"]}) != 3:
@@ -111,7 +118,20 @@ def oracle(run, s, o):
                 run.violation(f"prover (run {mi + 1}) built a transcript RNG without fresh external randomness: {len(fins)} instances for {k_rounds} rounds, "
                               f"{sum(1 for x in fins if x[2] == '00' * 32)} finalised with zero bytes (bits={b}, m={m}, T={T}, seeded={seeded})", rp)
                 return
+        elif ms["rng"]["kind"] == "const":
+            # ... and those bytes are the CALLER's: under the stuck generator every instance is keyed with exactly the bytes that generator returns
+            want = f"{ms['rng'].get('byte', 0x5a):02x}" * 32
+            if len(fins) != 3 + k_rounds or any(x[2] != want for x in fins):
+                bad = [i for i, x in enumerate(fins) if x[2] != want]
+                run.violation(f"prover (run {mi + 1}, caller's generator stuck at 0x{want[:2]}) keyed transcript RNG instance(s) {bad[:6]} of {len(fins)} with bytes that do not come "
+                              f"from the caller's generator ({3 + k_rounds} instances expected; bits={b}, m={m}, T={T}, seeded={seeded}): later nonces do not depend on later output "
+                              f"of the external generator", rp)
+                return
     A, B, C, S = (slots_of(ms, mo) for ms, mo in zip(s["members"], o["members"]))
+    if A is None or B is None or C is None or S is None:
+        run.violation(f"the prover's last transcript RNG instance does not yield the two draws (r, s) — the RNG instances are not built and used as in the model "
+                      f"(bits={b}, m={m}, T={T}, seeded={seeded})", rp)
+        return
     inv = {}
     for k_, v_ in S.items():
         inv.setdefault(v_, []).append(k_)
